@@ -240,7 +240,8 @@ fn judge_report(cx: &mut Ctx, report: &TaxReport, cnt: &mut Counters) {
             }
         }
         for (k, a) in &o {
-            if !ekeys.contains_key(k) {
+            // a leg of less than the tolerance (rounding dust after a non-terminating split ratio) is no leg
+            if !ekeys.contains_key(k) && a.q.abs() > tol() {
                 bad.push(format!("unexpected leg {} acq-day#{} qty {}", k.0, k.1, a.q));
             }
         }
